@@ -433,6 +433,28 @@ func mustBeSignedHeader(headerKey string) bool {
 	return false
 }
 
+// trimAll implements the SigV4 Trimall function for canonical header values:
+// leading and trailing whitespace is removed and runs of inner spaces are
+// collapsed into a single space.
+func trimAll(value string) string {
+	value = strings.TrimSpace(value)
+	if !strings.Contains(value, "  ") {
+		return value
+	}
+	var trimmed strings.Builder
+	trimmed.Grow(len(value))
+	previousWasSpace := false
+	for idx := 0; idx < len(value); idx++ {
+		ch := value[idx]
+		if ch == ' ' && previousWasSpace {
+			continue
+		}
+		previousWasSpace = ch == ' '
+		trimmed.WriteByte(ch)
+	}
+	return trimmed.String()
+}
+
 // collectSignedHeaders returns the headers participating in the signature,
 // lowercased and sorted by key, shared by the canonical-headers and
 // signed-headers serializations.
@@ -446,7 +468,7 @@ func collectSignedHeaders(r *http.Request, headersToInclude []string) []pair {
 	for headerKey, headerValues := range r.Header {
 		headerKey = strings.ToLower(headerKey)
 		if includeInCanonicalHeaders(headerKey, headersToInclude) {
-			headerVal := strings.TrimSpace(strings.Join(headerValues, ","))
+			headerVal := trimAll(strings.Join(headerValues, ","))
 			headers = append(headers, pair{
 				key: headerKey,
 				val: headerVal,
